@@ -14,6 +14,7 @@ Model of the authorization code of ipchub (property C11), part 1: tables and HTT
 Strings are `List Char`.  Secrets (tokens, passwords) are symbolic.  Core Lean only.
 -/
 import IpcHub.Model.PathMatch
+import IpcHub.Model.CanonPath
 namespace IpcHub.Auth
 open IpcHub.PathMatch
 
@@ -224,21 +225,10 @@ def cleanKeepSlash (p : List Char) : List Char :=
   let np := cleanRooted p
   if p.getLast? = some '/' && np ≠ ['/'] then np ++ ['/'] else np
 
-/-- utils.canonicalPath: one pass -/
-def canonicalOnce (cfg : Cfg) (p : List Char) : List Char :=
-  cleanKeepSlash ((trim cfg.pm.isSpace p).map cfg.pm.lower)
-
-/-- the loop of utils.CanonicalPath (`for np != p`), with fuel: after the first pass every further
-    pass that changes the path shortens it -/
-def canonicalIter (cfg : Cfg) : Nat → List Char → List Char
-  | 0, p => p
-  | n + 1, p =>
-    let np := canonicalOnce cfg p
-    if np = p then np else canonicalIter cfg n np
-
-/-- utils.CanonicalPath: canonicalise until the result is its own canonical form -/
+/-- utils.CanonicalPath: the model of IpcHub/Model/CanonPath.lean (the pass repeated until the
+    result is its own canonical form), with this configuration's character functions -/
 def canonicalPath (cfg : Cfg) (p : List Char) : List Char :=
-  canonicalIter cfg (p.length + 3) p
+  IpcHub.CanonPath.canonicalPath { lower := cfg.pm.lower, isSpace := cfg.pm.isSpace } p
 
 /-- extractStreamPathAndExt; `none` = slice bounds panic -/
 def extractStreamPathAndExt (rp : List Char) : Option (List Char × List Char) :=
